@@ -38,9 +38,14 @@ def _gen_cases(tier, seed):
         kind = KINDS[i % len(KINDS)]
         kinds_ = common.CELL_KINDS + ["near_ortho"]
         cell = kinds_[(i // len(KINDS)) % len(kinds_)]
-        yield dict(i=i, seed=common.case_seed(seed, "C05", i), kind=kind, cell=cell,
-                   spread=int(rng.choice([0, 0, 1, 3, 10, 50])), perframe=bool(rng.random() < 0.3),
-                   n_frames=int(rng.integers(1, 6)), n_atoms=int(rng.integers(2, 40)))
+        c = dict(i=i, seed=common.case_seed(seed, "C05", i), kind=kind, cell=cell,
+                 spread=int(rng.choice([0, 0, 1, 3, 10, 50])), perframe=bool(rng.random() < 0.3),
+                 n_frames=int(rng.integers(1, 6)), n_atoms=int(rng.integers(2, 40)))
+        if i % 280 == 279:
+            # large requests: thousands of pairs over tens of frames (block / chunk / vector-width boundaries of the kernels)
+            c.update(n_frames=int(rng.choice([9, 17, 33])), n_atoms=int(rng.choice([257, 600, 1500])),
+                     n_pairs=int(rng.choice([1023, 4096, 4099])))
+        yield c
 
 
 def _build(case):
@@ -112,7 +117,7 @@ def _build(case):
         xyz[f] = pos
     t.xyz = xyz.astype(np.float32)
     # pair list: random, repeated, i==j
-    npairs = int(rng.integers(1, 40))
+    npairs = case.get("n_pairs") or int(rng.integers(1, 40))
     pairs = rng.integers(0, na, (npairs, 2))
     if rng.random() < 0.3:
         pairs = np.vstack([pairs, pairs[:2], [[0, 0]]])
@@ -141,6 +146,8 @@ def run_case(case, ctx):
     ctx.observe("kind", kind)
     ctx.observe("spread_cells", case["spread"])
     ctx.observe("per_frame_cells", bool(case["perframe"]))
+    if case.get("n_pairs"):
+        ctx.observe("large_request", "%d frames x %d pairs" % (case["n_frames"], case["n_pairs"]))
     tau = _tau(t.xyz, B, case["spread"])
 
     def judge_dist(name, d, f_idx, raw, Bf, label):
